@@ -80,6 +80,19 @@ def check_code(n, via):
                 from bromelia.avps import ExperimentalResultAVP, ExperimentalResultCodeAVP, VendorIdAVP
                 other = {1: 5420, 2: 5420, 3: 2001, 4: 2001, 5: 2001}.get(fam, 5001)
                 avps.append(ExperimentalResultAVP([VendorIdAVP(10415), ExperimentalResultCodeAVP(other)]))
+            if "+decoy" in via:
+                # look-alikes around the Result-Code: the same AVP code in a vendor's own code space (V flag), a top-level AVP with the
+                # code of Experimental-Result-Code, an unknown AVP whose data is a result code - each holding a code of another family;
+                # and ordinary AVPs in front, so that the Result-Code is not the first AVP of the answer
+                from bromelia.base import DiameterAVP
+                from bromelia.avps import OriginHostAVP, OriginRealmAVP
+                other = {1: 5012, 2: 5012, 3: 2001, 4: 2001, 5: 2001}.get(fam, 5012).to_bytes(4, "big")
+                twin = lambda: DiameterAVP(code=268, vendor_id=9, flags=0x80, data=other)
+                exp = lambda: DiameterAVP(code=298, vendor_id=10415, flags=0x80, data=other)
+                unk = lambda: DiameterAVP(code=99268, flags=0x00, data=other)
+                base = [OriginHostAVP("hss.example"), OriginRealmAVP("example")]
+                avps = {"a": [twin()] + base + avps, "b": base + avps + [twin()], "c": [exp(), unk()] + avps + [twin()],
+                        "d": [twin(), twin()] + avps + base}[via[-1]]
             ans = DiameterAnswer(command_code=257, application_id=0, avps=avps)
             if via.endswith("-e"):
                 ans.header.set_error_bit(True)        # the family of a code does not depend on the header's E bit
@@ -149,7 +162,9 @@ def main(ctx):
     n_rand = 3000 if ctx.quick else 200000
     codes = st.one_of(st.sampled_from(bound), st.integers(0, 2**32 - 1), st.integers(900, 6100))
     cases = st.one_of(
-        st.builds(lambda n, via: {"n": n, "via": via}, codes, st.sampled_from(["int", "answer", "decoded", "answer-e", "decoded-e", "answer+exp", "decoded+exp"])),
+        st.builds(lambda n, via: {"n": n, "via": via}, codes, st.sampled_from(["int", "answer", "decoded", "answer-e", "decoded-e", "answer+exp", "decoded+exp",
+                                                                                    "answer+decoy-a", "answer+decoy-b", "answer+decoy-c", "answer+decoy-d",
+                                                                                    "decoded+decoy-a", "decoded+decoy-b", "decoded+decoy-c", "decoded+decoy-d"])),
         st.builds(lambda h, e: {"hist": h, "e": e}, st.lists(st.one_of(st.integers(900, 6100), st.sampled_from([2001, 5012, 3002, 4001, 1001])),
                                                              min_size=2, max_size=4), st.booleans()))
 
@@ -167,7 +182,7 @@ def main(ctx):
     from .. import midcall
     midcall.sweep(col, "c17", "predicate_k(n) <=> n//1000 == k - whatever another thread is classifying at the same time",
                   ks=[1, 4] if ctx.quick else list(range(1, len(midcall.C17_CODES))), nmax=90)
-    ctx.required_classes = ["mid-call-parked", "first-use-parked-mid-call", "int", "answer", "decoded", "n>65535", "answer-e", "decoded-e", "history-in-place-change", "answer+exp", "decoded+exp"]
+    ctx.required_classes = ["mid-call-parked", "first-use-parked-mid-call", "int", "answer", "decoded", "n>65535", "answer-e", "decoded-e", "history-in-place-change", "answer+exp", "decoded+exp", "answer+decoy-a", "decoded+decoy-c"]
     ctx.assumptions = ["multiples of 1000 and answers without a Result-Code AVP are outside the statement",
                        "answer-object predicates are exercised on DiameterAnswer objects holding ResultCodeAVP(n), built and decoded"]
     return col
